@@ -12,8 +12,9 @@ MINE = {"returned-value", "round-trip:stored-object-not-retrievable", "round-tri
         "result-class", "store-state:object-bytes-changed", "model:obj", "model:bind",
         # the history half of C01 ("until deleted, whatever calls are made on other pids") is inductive: it needs the
         # bookkeeping invariant to be closed under the calls on the other pid as well
-        "bookkeeping-not-exact", "other-pid-references-changed"}
-KINDS = ["path", "Path", "stream", "bytesio"]
+        "bookkeeping-not-exact", "other-pid-references-changed", "store-state:unterminated-line",
+        "store-state:dup-line", "store-state:foreign-line"}
+KINDS = ["path", "Path", "stream", "bytesio", "decoder"]
 STORE_ALGOS = ["MD5", "SHA-1", "SHA-256", "SHA-384", "SHA-512"]
 
 
